@@ -29,6 +29,9 @@ var c02Defects = []string{
 	"rotated-secret", "presign-rotated-secret",
 	// the signature of a data chunk is removed (empty value) and the chunk's data altered
 	"chunk-sig-emptied",
+	// a sub-resource selector is added to the query of a signed request, in a clean spelling and in spellings
+	// that a strict query parser drops and a lenient one keeps (";", a malformed escape)
+	"query-subresource-added",
 }
 
 type c02Prog struct {
@@ -40,6 +43,7 @@ type c02Prog struct {
 	Trunc    bool   `json:"trunc,omitempty"` // additionally cut the connection inside the body
 	FragMode int    `json:"frag,omitempty"`
 	GW       int    `json:"gw,omitempty"`
+	Pick     int    `json:"pick,omitempty"` // seeded choice inside a defect class
 }
 
 type c02 struct{ baseCheck }
@@ -87,7 +91,7 @@ func c02DefectApplies(d string, r routes.Route, mode string, hasBody bool) bool 
 		return r.Streams && (mode == s3c.ModeChunked || mode == s3c.ModeChunkedTrailer)
 	case "trailer-altered":
 		return r.Streams && mode == s3c.ModeChunkedTrailer
-	case "path-altered":
+	case "path-altered", "query-subresource-added":
 		return r.Shape == "object" || r.Shape == "bucket"
 	}
 	return true
@@ -98,7 +102,7 @@ func (c02) Gen(seed uint64, run int, tier string) *core.Case {
 	es := c02Entries()
 	en := es[run%len(es)]
 	d := c02Defects[(run/len(es))%len(c02Defects)]
-	p := c02Prog{Route: en.r.ID, Slash: en.slash, Tail: en.tail, Defect: d, FragMode: r.IntN(4), Trunc: r.IntN(5) == 0}
+	p := c02Prog{Route: en.r.ID, Slash: en.slash, Tail: en.tail, Defect: d, FragMode: r.IntN(4), Trunc: r.IntN(5) == 0, Pick: r.IntN(1 << 16)}
 	p.Mode = []string{s3c.ModeSigned, s3c.ModeSigned, s3c.ModeUnsigned}[r.IntN(3)]
 	if en.r.Streams {
 		p.Mode = []string{s3c.ModeSigned, s3c.ModeUnsigned, s3c.ModeChunked, s3c.ModeChunkedTrailer, s3c.ModeUnsignedTrailer}[r.IntN(5)]
@@ -279,6 +283,23 @@ func c02Apply(e *env.Env, fx *routes.Fixture, rt *routes.Route, p *c02Prog) (sg 
 			sg.Target += "&zz-extra=1"
 		} else {
 			sg.Target += "?zz-extra=1"
+		}
+	case "query-subresource-added":
+		subs := []string{"tagging", "acl", "policy", "versioning", "uploads", "versions", "object-lock", "ownershipControls"}
+		if rt.Shape == "object" {
+			subs = []string{"tagging", "acl", "retention", "legal-hold", "uploads", "attributes"}
+		} else if rt.Shape != "bucket" {
+			return nil, nil, false
+		}
+		sub := subs[p.Pick%len(subs)]
+		if strings.Contains(sg.Target, sub+"=") || strings.Contains(sg.Target, "?"+sub) || strings.Contains(sg.Target, "&"+sub) {
+			return nil, nil, false
+		}
+		arg := sub + []string{"=", "=;", "=%zz", ";x=", "=%", "=a;b"}[(p.Pick/16)%6]
+		if strings.Contains(sg.Target, "?") {
+			sg.Target += "&" + arg
+		} else {
+			sg.Target += "?" + arg
 		}
 	case "path-altered":
 		// send the request to another existing target than the one that was signed
